@@ -1,0 +1,22 @@
+//go:build verif
+
+package codegen
+
+import "sort"
+
+// VerifNamer exposes the GLSL namer to the verification harness.
+type VerifNamer struct{ n *namer }
+
+func NewVerifNamer() *VerifNamer               { return &VerifNamer{n: newNamer()} }
+func (v *VerifNamer) Call(label string) string { return v.n.call(label) }
+func VerifSanitize(label string) string        { return sanitizeName(label) }
+
+// VerifKeywords returns the keyword table, sorted.
+func VerifKeywords() []string {
+	out := make([]string, 0, len(glslKeywords))
+	for k := range glslKeywords {
+		out = append(out, k)
+	}
+	sort.Strings(out)
+	return out
+}
